@@ -67,7 +67,18 @@ class CalleeKey(object):
     __slots__ = ('self_ty', 'trait', 'method', 'path', 'raw', 'self_full', 'trait_full', 'gen')
 
 
+_CALLEE_CACHE = {}
+
+
 def parse_callee(text):
+    k = _CALLEE_CACHE.get(text)
+    if k is None:
+        k = _parse_callee(text)
+        _CALLEE_CACHE[text] = k
+    return k
+
+
+def _parse_callee(text):
     """Split a callee string from a MIR call into (self type, trait, method) or a free path."""
     k = CalleeKey()
     k.raw = text
@@ -339,7 +350,8 @@ def _parse_impl_header(hdr, path, line, method):
 # ==============================================================================================
 
 class Ctx(object):
-    def __init__(self, prefix=(), timeout_ms=20000):
+    def __init__(self, prefix=(), timeout_ms=20000, validate=0):
+        self.validate = validate      # the first `validate` decisions of the prefix are unchecked guesses
         self.prefix = list(prefix)
         self.pos = 0
         self.decisions = []
@@ -414,6 +426,8 @@ class Ctx(object):
         path follows; other feasible alternatives are scheduled."""
         if self.pos < len(self.prefix):
             i = self.prefix[self.pos]
+            if self.pos < self.validate and (i >= len(alts) or not self.feasible(alts[i])):
+                raise PathAbort('initial prefix not applicable')
             self.pos += 1
             self.decisions.append(i)
             self.assume(alts[i])
@@ -520,6 +534,8 @@ class Machine(object):
             v = self.ctx.resolve(load(r, self.ctx.resolve))
             if isinstance(v, Ref):
                 return v
+            if isinstance(v, Adt) and v.ty in ('NonNull', 'Unique') and v.fields and isinstance(v.fields[0], Ref):
+                return v.fields[0]
             if isinstance(v, Adt) and v.ty in ('Box', 'Rc', 'NonNull', 'Unique'):
                 return Ref(r.cell, r.path + (0,))
             raise NotEncodable('deref of %r' % (v,))
@@ -1020,6 +1036,8 @@ class Machine(object):
     def runtime_type(self, v):
         v = self.deref_all(v)
         if isinstance(v, Adt):
+            if v.ty == '(tuple)':
+                return '(%s)' % ', '.join(str(self.runtime_type(f)) for f in v.fields)
             return v.ty
         if isinstance(v, bool):
             return 'bool'
@@ -1097,13 +1115,23 @@ class PathResult(object):
     __slots__ = ('status', 'value', 'ctx', 'detail', 'machine')
 
 
-def explore(make_machine, scenario, max_paths=200000, on_path=None, time_budget=None):
+def explore(make_machine, scenario, max_paths=200000, on_path=None, time_budget=None, initial=None,
+            frontier_target=None):
+    """(see below) With `frontier_target` the search runs shortest-prefix-first and stops as soon as
+    that many unexplored prefixes are pending; they are returned in stats['frontier'] so that a
+    caller can distribute the remaining sub-trees over worker processes."""
+    return _explore(make_machine, scenario, max_paths, on_path, time_budget, initial, frontier_target)
+
+
+def _explore(make_machine, scenario, max_paths=200000, on_path=None, time_budget=None, initial=None,
+             frontier_target=None):
     """Run `scenario(machine)` along every feasible path.
 
     `make_machine(ctx)` builds a Machine for a fresh Ctx; `scenario` drives it and returns any
     value; `on_path(PathResult)` is called for every completed path (status 'ok' | 'panic' |
     'abort' | 'notenc').  Returns statistics."""
-    work = [[]]
+    work = [list(p) for p in initial] if initial is not None else [[]]
+    ninit_len = {tuple(p): len(p) for p in (initial or [])}
     stats = {'paths': 0, 'ok': 0, 'panic': 0, 'abort': 0, 'notenc': 0, 'solver_calls': 0,
              'steps': 0, 'truncated': False, 'notenc_reasons': {}}
     t0 = time.time()
@@ -1111,8 +1139,12 @@ def explore(make_machine, scenario, max_paths=200000, on_path=None, time_budget=
         if stats['paths'] >= max_paths or (time_budget and time.time() - t0 > time_budget):
             stats['truncated'] = True
             break
+        if frontier_target is not None:
+            if len(work) >= frontier_target:
+                break
+            work.sort(key=len, reverse=True)
         prefix = work.pop()
-        ctx = Ctx(prefix)
+        ctx = Ctx(prefix, validate=(ninit_len.get(tuple(prefix), 0)))
         m = make_machine(ctx)
         r = PathResult()
         r.ctx, r.machine, r.value, r.detail = ctx, m, None, ''
@@ -1146,4 +1178,7 @@ def explore(make_machine, scenario, max_paths=200000, on_path=None, time_budget=
         if on_path is not None:
             on_path(r)
     stats['wall_s'] = round(time.time() - t0, 3)
+    stats['frontier'] = work if frontier_target is not None else []
+    if frontier_target is not None:
+        stats['truncated'] = False
     return stats
